@@ -55,6 +55,23 @@ fn _get_std_fds(redirects: &[Redirection]) -> (Option<RawFd>, Option<RawFd>) {
     (fd_out, fd_err)
 }
 
+/// Open (and close again) every redirection target of a builtin that runs
+/// inside the shell, as it would happen for an external program before it
+/// starts: the targets exist afterwards even if the builtin prints nothing.
+/// Returns false if one of them could not be opened.
+pub fn check_redirections(cmd: &Command) -> bool {
+    let (fd_out, fd_err) = _get_std_fds(&cmd.redirects_to);
+    let mut ok = true;
+    for fd in [fd_out, fd_err].iter().flatten() {
+        if *fd >= 0 {
+            unsafe { libc::close(*fd); }
+        } else {
+            ok = false;
+        }
+    }
+    ok
+}
+
 fn _get_dupped_stdout_fd(cmd: &Command, cl: &CommandLine) -> RawFd {
     // if with pipeline, e.g. `history | grep foo`, then we don't need to
     // dup stdout since it is running in a sperated process, whose fd can
